@@ -1,7 +1,8 @@
 (** C04 — GoChannel delivers every published message to every current subscriber.
     Models: GoChannel/Sub.v (Layer A: Senders, consumer, teardown of ONE subscription) and
     GoChannel/Reg.v (Layer B: which (publication, subscription) pairs get a Sender). *)
-From WM Require Import Base.Prelude Message.Model GoChannel.Sub GoChannel.SubProofs.
+From WM Require Import Base.Prelude Message.Model GoChannel.Sub GoChannel.SubProofs
+                       GoChannel.Reg GoChannel.RegLocks GoChannel.RegInv GoChannel.RegSend.
 
 (** "A subscription sees a given published message again only after it Nacked the previous
     delivery of it": for every buffer size, any number of Senders, every consumer behaviour and
@@ -19,10 +20,10 @@ Print Assumptions C04_no_duplicate_without_nack.
     unless the subscription is closed/closing - offers a FRESH unsettled copy of the same
     publication. *)
 Theorem C04_redelivery_after_nack : forall s t p c, SInv s ->
-  thr s t = SWait p c -> c_st (copies s c) = Nacked ->
-  exists s1, sstep s (LSeeNacked t) = Some s1 /\ thr s1 t = SHead p
+  Sub.thr s t = SWait p c -> c_st (copies s c) = Nacked ->
+  exists s1, sstep s (LSeeNacked t) = Some s1 /\ Sub.thr s1 t = SHead p
   /\ (closedf s1 = false -> fixed s1 && closing s1 = false ->
-      exists s2, sstep s1 (LStep t) = Some s2 /\ thr s2 t = SSend p (next s1)
+      exists s2, sstep s1 (LStep t) = Some s2 /\ Sub.thr s2 t = SSend p (next s1)
                  /\ c_pub (copies s2 (next s1)) = p /\ c_st (copies s2 (next s1)) = Unsettled).
 Proof. exact redelivery_after_nack. Qed.
 Print Assumptions C04_redelivery_after_nack.
@@ -40,6 +41,48 @@ Theorem C04_settle_is_local : forall s c s',
 Proof. exact settle_is_local. Qed.
 Print Assumptions C04_settle_is_local.
 
+(** ** Registry layer: who gets a Sender.  For ALL schedules of any number of Publish, Subscribe,
+    teardown and Close calls, all modes. *)
+
+(** "is delivered ... to every subscription of that topic that existed when Publish was called":
+    when a Publish takes the snapshot for message p on topic k, every subscription registered
+    for k at that moment gets exactly one Sender for p; nothing else changes. *)
+Theorem C04_snapshot_gives_every_subscriber_a_sender : forall pers blk fx ls t k p rem s',
+  let s := grun (ginit pers blk fx) ls in
+  Reg.thr s t = PSend k (p :: rem) -> gstep s (GT t) = Some s' ->
+  (forall x, In x (subs s k) -> nsenders s' p x = 1)
+  /\ (forall q y, (q <> p \/ ~ In y (subs s k)) -> nsenders s' q y = nsenders s q y)
+  /\ In p (sent s').
+Proof. exact snapshot_complete. Qed.
+Print Assumptions C04_snapshot_gives_every_subscriber_a_sender.
+
+(** which subscriptions are "current": exactly those whose Subscribe (or persistent replay) is
+    past addSubscriber and whose teardown has not yet executed removeSubscriber *)
+Theorem C04_registered_window : forall pers blk fx ls x k,
+  let s := grun (ginit pers blk fx) ls in
+  In x (subs s k) <-> (k = stopic s x /\ sb_reg (sb s x) = true /\ td_pre (td s x) = true).
+Proof. exact registered_window. Qed.
+Print Assumptions C04_registered_window.
+
+(** "... and to no subscription of another topic" *)
+Theorem C04_no_other_topic : forall pers blk fx ls p x,
+  let s := grun (ginit pers blk fx) ls in
+  In (p, x) (senders s) -> ptopic s p = stopic s x.
+Proof. exact sender_topic. Qed.
+Print Assumptions C04_no_other_topic.
+
+(** never two Senders for one (message, subscription) pair: with the Layer A theorem above, a
+    subscription sees a message a second time only after a Nack *)
+Theorem C04_at_most_one_sender : forall pers blk fx ls p x,
+  nsenders (grun (ginit pers blk fx) ls) p x <= 1.
+Proof. exact sender_unique. Qed.
+Print Assumptions C04_at_most_one_sender.
+
+(** a Sender, once spawned, is never withdrawn *)
+Theorem C04_senders_only_grow : forall s ls, exists new, senders (grun s ls) = new ++ senders s.
+Proof. exact senders_monotone. Qed.
+Print Assumptions C04_senders_only_grow.
+
 (** non-vacuity: a run in which a message is Nacked twice and then Acked - three copies, the
     first two Nacked, one Sender *)
 Example C04_nack_nack_ack :
@@ -47,5 +90,5 @@ Example C04_nack_nack_ack :
     [LTdSpawn; LSpawn 0 7; LStep 0; LStep 0; LHandoff 0; LNack 0; LSeeNacked 0;
      LStep 0; LHandoff 0; LNack 1; LSeeNacked 0; LStep 0; LHandoff 0; LAck 2; LSeeAcked 0; LStep 0] in
   next s = 3 /\ map (fun c => c_st (copies s c)) [0; 1; 2] = [Nacked; Nacked; Acked]
-  /\ thr s 0 = SDone 7 /\ outstanding s = [].
+  /\ Sub.thr s 0 = Sub.SDone 7 /\ outstanding s = [].
 Proof. vm_compute. repeat split; reflexivity. Qed.
